@@ -64,6 +64,31 @@ func (x *Exec) doCall(fr *Frame, st *State, c *ssa.CallCommon, args []Value, pos
 			}
 			s.matched++
 			ms = append(ms, matched{s, env})
+			var watches []watch
+			for _, w := range s.Witness {
+				wenv := x.newEnv(root, st)
+				wenv.pos = pos
+				wenv.cur = fr
+				for k, v := range env {
+					wenv.vars[k] = v
+				}
+				n := w.Bound
+				if w.Var == "" {
+					n = 1
+				}
+				for k := 0; k < n; k++ {
+					name := w.Name
+					if w.Var != "" {
+						wenv.vars[w.Var] = intV(IntLit(int64(k)))
+						name = fmt.Sprintf("%s[%d]", w.Name, k)
+					}
+					if v, err := wenv.eval(w.E); err == nil {
+						if ls := flatten(v); len(ls) > 0 {
+							watches = append(watches, watch{Name: name, Term: ls[0]})
+						}
+					}
+				}
+			}
 			for _, a := range s.Asserts {
 				x.obligeClause(root, st, a, "site", s.Label, func(e *Env) {
 					for k, v := range env {
@@ -72,6 +97,7 @@ func (x *Exec) doCall(fr *Frame, st *State, c *ssa.CallCommon, args []Value, pos
 					e.siteWhere = s.Where
 					e.cur = fr
 				}, pos)
+				x.obls[len(x.obls)-1].Watch = watches
 			}
 			x.obligeCover(root, st, "site:"+s.Label, pos)
 		}
@@ -90,7 +116,7 @@ func (x *Exec) doCall(fr *Frame, st *State, c *ssa.CallCommon, args []Value, pos
 	switch {
 	case spec != nil:
 		res = x.applySpec(fr, st, spec, c, args, rt, pos, preSnap, key)
-	case callee != nil && x.canInline(fr, callee):
+	case callee != nil && inModule(callee) && x.canInline(fr, callee):
 		res = x.inline(fr, st, callee, args, nil, pos)
 	case x.closureCallee(fr, c) != nil:
 		fv := x.val(fr, st, c.Value).(FuncV)
@@ -103,6 +129,8 @@ func (x *Exec) doCall(fr *Frame, st *State, c *ssa.CallCommon, args []Value, pos
 	default:
 		if r, ok := x.accessorConvention(fr, st, c, key, args, rt); ok {
 			res = r
+		} else if callee != nil && x.canInline(fr, callee) {
+			res = x.inline(fr, st, callee, args, nil, pos)
 		} else {
 			res = x.havocCall(fr, st, key, args, rt, pos)
 		}
@@ -236,13 +264,24 @@ func (x *Exec) closureCallee(fr *Frame, c *ssa.CallCommon) *ssa.Function {
 }
 
 func (x *Exec) canInline(fr *Frame, fn *ssa.Function) bool {
-	if fn == nil || len(fn.Blocks) == 0 || len(fn.Blocks) > maxInlineBlocks || fr.depth >= maxInlineDepth {
+	if fn == nil || fr.depth >= maxInlineDepth {
 		return false
 	}
-	if fn.Pkg == nil || !strings.HasPrefix(fn.Pkg.Pkg.Path(), "github.com/crossplane/crossplane/") && fn.Pkg.Pkg.Path() != "github.com/crossplane/crossplane" {
-		if x.L.ByPath[fn.Pkg.Pkg.Path()] == nil {
-			return false
-		}
+	if fn.Blocks == nil && fn.Pkg != nil && inlinablePkg(fn.Pkg.Pkg.Path()) && fn.Synthetic == "" {
+		fn.Pkg.Build() // build bodies of this dependency package on demand
+	}
+	if o := fn.Origin(); o != nil && fn.Blocks == nil && o.Pkg != nil && inlinablePkg(o.Pkg.Pkg.Path()) {
+		o.Pkg.Build()
+	}
+	if len(fn.Blocks) == 0 || len(fn.Blocks) > maxInlineBlocks {
+		return false
+	}
+	pkg := fn.Pkg
+	if pkg == nil && fn.Origin() != nil {
+		pkg = fn.Origin().Pkg
+	}
+	if pkg == nil || !inlinablePkg(pkg.Pkg.Path()) {
+		return false
 	}
 	for f := fr; f != nil; f = f.parent {
 		if f.fn == fn {
@@ -250,6 +289,25 @@ func (x *Exec) canInline(fr *Frame, fn *ssa.Function) bool {
 		}
 	}
 	return true
+}
+
+// inModule: the callee belongs to the crossplane module itself (inlined before the accessor
+// convention is tried; dependency helpers are inlined only after it).
+func inModule(fn *ssa.Function) bool {
+	pkg := fn.Pkg
+	if pkg == nil && fn.Origin() != nil {
+		pkg = fn.Origin().Pkg
+	}
+	if pkg == nil {
+		return false
+	}
+	p := pkg.Pkg.Path()
+	return p == "github.com/crossplane/crossplane" || strings.HasPrefix(p, "github.com/crossplane/crossplane/")
+}
+
+func inlinablePkg(path string) bool {
+	return path == "github.com/crossplane/crossplane" || strings.HasPrefix(path, "github.com/crossplane/crossplane/") ||
+		strings.HasPrefix(path, "github.com/crossplane/crossplane-runtime/") || path == "k8s.io/utils/ptr"
 }
 
 // inline executes the callee's body at the call site.
@@ -302,7 +360,7 @@ func (x *Exec) inline(fr *Frame, st *State, fn *ssa.Function, args []Value, env 
 }
 
 func (x *Exec) havocCall(fr *Frame, st *State, key string, args []Value, rt types.Type, pos token.Pos) Value {
-	x.note("call without contract, havoc: " + key)
+	x.note("call without contract, havoc: " + key + " at " + x.pos(pos))
 	x.havocAll(st, key)
 	if rt == nil {
 		return nil
@@ -362,17 +420,28 @@ func objRef(v Value) (Term, bool) {
 	return "", false
 }
 
-func (x *Exec) mfRead(st *State, field string, ref Term, idx []Term, t types.Type) Value {
+// mfIdx is an extra index of a model field (e.g. the condition type of GetCondition).
+type mfIdx struct {
+	T    Term
+	Sort string
+}
+
+func mfIndexOf(v Value) mfIdx {
+	sh := leafShapeAny(valueType(v))
+	return mfIdx{T: flatten(v)[0], Sort: sh[0].sort}
+}
+
+func (x *Exec) mfRead(st *State, field string, ref Term, idx []mfIdx, t types.Type) Value {
 	sh := leafShapeAny(t)
 	ts := make([]Term, len(sh))
 	for i, l := range sh {
 		sort := l.sort
-		for range idx {
-			sort = arrSort(SInt, sort)
+		for j := len(idx) - 1; j >= 0; j-- {
+			sort = arrSort(idx[j].Sort, sort)
 		}
 		a := Select(x.arr(st, "MF."+field+l.suffix+":"+l.sort, arrSort(SRef, sort)), ref)
 		for _, ix := range idx {
-			a = Select(a, ix)
+			a = Select(a, ix.T)
 		}
 		ts[i] = a
 	}
@@ -380,14 +449,14 @@ func (x *Exec) mfRead(st *State, field string, ref Term, idx []Term, t types.Typ
 	return v
 }
 
-func (x *Exec) mfWrite(st *State, field string, ref Term, idx []Term, v Value) {
+func (x *Exec) mfWrite(st *State, field string, ref Term, idx []mfIdx, v Value) {
 	t := valueType(v)
 	sh := leafShapeAny(t)
 	ls := flatten(v)
 	for i, l := range sh {
 		sort := l.sort
-		for range idx {
-			sort = arrSort(SInt, sort)
+		for j := len(idx) - 1; j >= 0; j-- {
+			sort = arrSort(idx[j].Sort, sort)
 		}
 		name := "MF." + field + l.suffix + ":" + l.sort
 		as := arrSort(SRef, sort)
@@ -396,7 +465,7 @@ func (x *Exec) mfWrite(st *State, field string, ref Term, idx []Term, v Value) {
 		if len(idx) == 0 {
 			nv = Store(a, ref, ls[i])
 		} else {
-			nv = Store(a, ref, Store(Select(a, ref), idx[0], ls[i]))
+			nv = Store(a, ref, Store(Select(a, ref), idx[0].T, ls[i]))
 		}
 		x.setArr(st, name, as, nv)
 	}
@@ -462,16 +531,34 @@ func (x *Exec) applySpec(fr *Frame, st *State, spec *FuncSpec, c *ssa.CallCommon
 	case "mf":
 		ref, ok := objRef(args[0])
 		if ok && !noResult {
-			var idx []Term
+			var idx []mfIdx
 			for _, e := range spec.MFArgs {
 				v, err := env.eval(e)
 				if err == nil {
-					idx = append(idx, flatten(v)[0])
+					idx = append(idx, mfIndexOf(v))
 				}
 			}
 			res = x.mfRead(st, spec.MF, ref, idx, rt)
 		}
 	case "nofx", "setmf":
+	case "fresh":
+		// constructor: the result is a newly allocated object (distinct from everything that exists)
+		if !noResult {
+			res = m.freshValue(rt, "new."+shortKey(key))
+			ref := x.newRefIn(fr, st, "new")
+			switch rv := res.(type) {
+			case IfaceV:
+				rv.Data = ref
+				x.assumeAt(st, Not(Eq(rv.Tag, "0")))
+				res = rv
+			case PtrV:
+				rv.Ref = ref
+				res = rv
+			case MapV:
+				rv.Ref = ref
+				res = rv
+			}
+		}
 	case "":
 		if !spec.Assumed && len(spec.Modifies) == 0 {
 			x.havocAll(st, key)
